@@ -1,1 +1,59 @@
-(* Props/C05.v — corollaries of the C01 machine; filled in once Proofs/C01.v lands *)
+(* Props/C05.v — property theorems only: one value per cell, whatever the
+   order or the access path.  Corollaries of the C01 machine (Model/Graph.v),
+   for EVERY well-formed workbook W and EVERY formula semantics [sem] that never
+   computes a blank (sem_nonblank, C01's side condition (d)), with stored
+   results as in C01 (stored_ok; in particular a no-data workbook).
+     be_op W o     o is Evaluate n or Build n with n a node of W (no writes)
+     tuple_at v i j   element j of row i of a tuple of tuples
+   Unbounded ranges clipped to the used area, address lists/tuples/generators
+   and sheet-less addresses are not modelled: oracle only. *)
+From Coq Require Import List.
+From PV Require Import Lib.Py Model.Graph Model.GraphExpr.
+From PV Require Import Proofs.C01Base Proofs.C01Inv Proofs.C01 Proofs.C05.
+Import ListNotations.
+
+(* after ANY two histories of Build/Evaluate operations, in any order,
+   evaluating node n returns the same value: the from-scratch value under the
+   workbook's own inputs *)
+Theorem C05_order : forall W sem, wf W -> sem_nonblank W sem -> stored_ok W sem ->
+  forall h1 h2 n, Forall (be_op W) h1 -> Forall (be_op W) h2 -> n < wb_n W ->
+    snd (evaluate W sem (fst (run W sem (init W) h1)) n)
+    = snd (evaluate W sem (fst (run W sem (init W) h2)) n)
+    /\ snd (evaluate W sem (fst (run W sem (init W) h1)) n) = spec W sem (wb_inp0 W) n.
+Proof. exact order. Qed.
+Print Assumptions C05_order.
+
+(* the no-data configuration (in-memory workbook, deserialized model) *)
+Theorem C05_order_nodata : forall W sem, wf W -> sem_nonblank W sem ->
+  (forall n, wb_stored W n = VNone) ->
+  forall h1 h2 n, Forall (be_op W) h1 -> Forall (be_op W) h2 -> n < wb_n W ->
+    snd (evaluate W sem (fst (run W sem (init W) h1)) n)
+    = snd (evaluate W sem (fst (run W sem (init W) h2)) n).
+Proof. exact order_nodata. Qed.
+Print Assumptions C05_order_nodata.
+
+(* evaluating a node twice in a row: same value, and the second evaluation
+   changes neither the cache nor the cell map *)
+Theorem C05_repeat : forall W sem, wf W -> sem_nonblank W sem -> stored_ok W sem ->
+  forall s n, Inv W sem s -> n < wb_n W ->
+    let s1 := fst (evaluate W sem s n) in
+    let v1 := snd (evaluate W sem s n) in
+    let s2 := fst (evaluate W sem s1 n) in
+    let v2 := snd (evaluate W sem s1 n) in
+    v2 = v1 /\ st_built s2 = st_built s1 /\ forall m, st_cache s2 m = st_cache s1 m.
+Proof. exact repeat_eval. Qed.
+Print Assumptions C05_repeat.
+
+(* access path: element (i, j) of the value of a range node with [cols]
+   columns is what evaluate returns for the member cell at that position,
+   asked before or after the range *)
+Theorem C05_path : forall W sem, wf W -> sem_nonblank W sem -> stored_ok W sem ->
+  forall s r cols i j, Inv W sem s -> r < wb_n W -> wb_input W r = false ->
+    (forall vals, sem r vals = sem_formula (FRange cols) vals) ->
+    0 < cols -> j < cols -> i * cols + j < length (wb_deps W r) ->
+    let cell := nth (i * cols + j) (wb_deps W r) 0 in
+    tuple_at (snd (evaluate W sem s r)) i j = snd (evaluate W sem s cell)
+    /\ tuple_at (snd (evaluate W sem s r)) i j
+       = snd (evaluate W sem (fst (evaluate W sem s r)) cell).
+Proof. exact path. Qed.
+Print Assumptions C05_path.
